@@ -24,6 +24,7 @@ type pProfile struct {
 	wrap      bool // Wrap scripts (C08)
 	bigWin    bool // prefer WindowSize >= BufferSize (C12 literal clause)
 	twin      bool // compare with a fresh parser after every Reset (C13)
+	staleBias bool // geometry and data that make stale dictionary entries matter (C13)
 }
 
 func (pf pProfile) withKinds(k ...string) pProfile { pf.kinds = k; return pf }
@@ -103,6 +104,11 @@ func genPCfg(r *rng, kind string, pf pProfile) pcfg {
 		c.f["InputLen"] = il
 		c.f["HashBits"] = hb(il)
 		c.f["BucketSize"] = r.pick(1, 2, 3, 4, 128)
+		if pf.staleBias {
+			c.f["InputLen"] = r.rangeIn(4, 6)
+			c.f["BucketSize"] = r.pick(1, 1, 2, 2, 3)
+			c.f["HashBits"] = r.rangeIn(1, 6)
+		}
 	case "GSAP":
 		c.f["MinMatchLen"] = r.rangeIn(2, 5)
 		if c.f["WindowSize"] < c.f["MinMatchLen"] {
@@ -207,6 +213,13 @@ func genPScript(r *rng, pf pProfile, id string, cnt counters, emit func(line, ou
 				i++
 			}
 			c = byte(r.pick(0, 'a', 'b', 0xff))
+		}
+	} else if pf.staleBias {
+		// small alphabet: n-grams recur with different continuations
+		stream = make([]byte, pf.stream)
+		al := r.rangeIn(2, 3)
+		for i := range stream {
+			stream[i] = byte('a' + r.intn(al))
 		}
 	} else {
 		stream = genData(r, pf.stream)
